@@ -56,6 +56,51 @@ def c115(ctx):
                               "an inner step can return without the %s-bound check" % label, pt=p_, path=q)
             ctx.check(R, f, "step-loop", P.reach(f, P.after(f, p_), [p_]) is not None, "%s keeps stepping while the position is outside the opposite bound" % m,
                       "%s steps once only: a position outside the opposite bound is reported as in range" % m, pt=p_)
+    # the state machine: moving forward the cursor keeps stepping while it is still BeforeStart (and stops for good at AfterEnd);
+    # moving backward it keeps stepping while it is still AfterEnd (and stops for good at BeforeStart).  The variant each test
+    # compares self.bounds with is read from the promoted constant operand.
+    def bounds_tests(f):
+        out = []
+        for b in P.switch_blocks(f):
+            for c_ in K.cond_sources(f, b.idx):
+                if c_["k"] == "call" and re.search(r"::(ne|eq)$", c_["callee"]) and len(c_["t"]["args"]) == 2:
+                    if not any(s_["k"] == "field" and s_["f"] == "bounds" for a in c_["t"]["args"] for s_ in P.origins(f, a)):
+                        continue
+                    var = None
+                    for a in c_["t"]["args"]:
+                        for s_ in P.origins(f, a):
+                            if s_["k"] == "const" and s_.get("pvariant"):
+                                var = s_["pvariant"]
+                    name = c_["callee"].rsplit("::", 1)[-1]
+                    out.append((b, var, name))
+        return out
+    for m, keep_stepping, stop in (("next", "BeforeStart", "AfterEnd"), ("prev", "AfterEnd", "BeforeStart")):
+        f = ctx.fn(R, B + m)
+        if not f:
+            continue
+        mv = [pt for name, pt in cursor_calls(f) if name == m]
+        tests = bounds_tests(f)
+        ctx.floor(R, "%s: tests of self.bounds" % m, len(tests), 2)
+        rets = [r_ for r_ in P.ok_points(f)]
+        for (b, var, name) in tests:
+            differs = "sw:1" if name == "ne" else "sw:0"
+            equal = "sw:0" if name == "ne" else "sw:1"
+            tgt_eq = dict(b.succs).get(equal)
+            tgt_ne = dict(b.succs).get(differs)
+            after_step = any(P.reach(f, P.after(f, p_), [P.term_pt(f, b.idx)], avoid=set(mv) - {p_}) is not None for p_ in mv) and \
+                not P.reach(f, P.ENTRY, [P.term_pt(f, b.idx)], avoid=set(mv)) is not None
+            if after_step:
+                # the test that follows a step: equal to `keep_stepping` goes round again, anything else returns
+                again = tgt_eq is not None and any(P.reach(f, [(tgt_eq, 0)], [p_], avoid=set(rets)) is not None for p_ in mv)
+                ctx.check(R, f, "retry-while:" + keep_stepping, var == keep_stepping and again,
+                          "%s steps again exactly while the position is still %s" % (m, keep_stepping),
+                          "after a step, %s retries while self.bounds == %s (expected %s): a position that is still %s is reported as in range, or a "
+                          "position already in range is stepped over" % (m, var, keep_stepping, keep_stepping), pt=P.term_pt(f, b.idx))
+            else:
+                # the loop guard evaluated before the first step: nothing to do once the cursor is parked at `stop`
+                ctx.check(R, f, "parked-at:" + stop, var == stop,
+                          "%s does not move once the cursor is %s" % (m, stop),
+                          "%s's entry guard compares self.bounds with %s (expected %s)" % (m, var, stop), pt=P.term_pt(f, b.idx))
     f = ctx.fn(R, B + "seek")
     if f:
         st = P.call_points(f, r"BoundsCursor::check_for_start_bound_exceeded$")
